@@ -140,6 +140,15 @@ def close(a, b, tol):
     return And(d <= tol, d >= -tol)
 
 
+def differs(a, b, tol):
+    """a != b for an identity over the reals: exact on solver terms (the stronger and,
+    for nonlinear arithmetic, much cheaper query), |a-b| > tol on floats (replay)."""
+    if _anysym([a, b]):
+        return a != b
+    d = a - b
+    return d > tol or d < -tol
+
+
 def far(a, b, tol):
     d = a - b
     return Or(d > tol, d < -tol)
@@ -238,6 +247,14 @@ def sym_e():
     return SNum(EULER)
 
 
+# optional lemma groups (completeness hints only; every lemma is a true statement)
+LEMMAS = {'taylor': False, 'exp_rational': True}
+
+
+def configure(**kw):
+    LEMMAS.update(kw)
+
+
 def _register(kind, arg):
     c = cur()
     apps = c.uf_apps.setdefault(kind, [])
@@ -261,12 +278,13 @@ def _trig_pair(arg):
             c.lemma(z3.Implies(z3.And(arg >= 0, arg <= PI), s >= 0))
             c.lemma(z3.Implies(z3.And(arg >= -PI / 2, arg <= PI / 2), co >= 0))
         c.lemma(z3.Implies(arg == 0, z3.And(s == 0, co == 1)))
-        # alternating Taylor bounds, valid for all real arguments
-        a2 = arg * arg
-        c.lemma(co >= 1 - a2 / 2)
-        c.lemma(co <= 1 - a2 / 2 + a2 * a2 / 24)
-        c.lemma(z3.Implies(arg >= 0, z3.And(s <= arg, s >= arg - a2 * arg / 6)))
-        c.lemma(z3.Implies(arg <= 0, z3.And(s >= arg, s <= arg - a2 * arg / 6)))
+        if LEMMAS['taylor']:
+            # alternating Taylor bounds, valid for all real arguments
+            a2 = arg * arg
+            c.lemma(co >= 1 - a2 / 2)
+            c.lemma(co <= 1 - a2 / 2 + a2 * a2 / 24)
+            c.lemma(z3.Implies(arg >= 0, z3.And(s <= arg, s >= arg - a2 * arg / 6)))
+            c.lemma(z3.Implies(arg <= 0, z3.And(s >= arg, s <= arg - a2 * arg / 6)))
         apps.append(arg)
 
 
@@ -307,7 +325,8 @@ def sexp(x):
         c.lemma(app >= 1 + arg)                       # convexity, all real arguments
         c.lemma(z3.Implies(arg <= 0, app <= 1))
         c.lemma(z3.Implies(arg >= 0, app >= 1))
-        c.lemma(z3.Implies(arg < 1, app * (1 - arg) <= 1))   # e^t <= 1/(1-t) for t<1
+        if LEMMAS['exp_rational']:
+            c.lemma(z3.Implies(arg < 1, app * (1 - arg) <= 1))   # e^t <= 1/(1-t) for t<1
         c.lemma(z3.Implies(arg == 0, app == 1))
         if c.uf_apps.get('e'):
             c.lemma(z3.Implies(arg == 1, app == EULER))
@@ -363,7 +382,9 @@ def spow(b, e):
     # constant exponent
     if not isinstance(e, SNum):
         ef = Fraction(e) if not isinstance(e, Fraction) else e
-        if ef.denominator == 1 and abs(ef.numerator) <= 120:
+        if ef.denominator == 1 and abs(ef.numerator) > MAX_INT_POWER:
+            return _big_int_power(b, int(ef))
+        if ef.denominator == 1:
             k = int(ef)
             if k == 0:
                 return SNum(z3.RealVal(1)) if not b.is_int or isinstance(e, float) else SNum(z3.IntVal(1))
@@ -414,6 +435,42 @@ def spow(b, e):
                 c.lemma(z3.Implies(z3.And(et <= 0, a > 0, bt > 0),
                                    z3.And(z3.Implies(a <= bt, fa >= app), z3.Implies(bt <= a, app >= fa))))
         lst.append(key)
+    return SNum(app)
+
+
+MAX_INT_POWER = 12
+_IPOW = {}
+
+
+def _big_int_power(b, k):
+    """b ** k for a large integer k: uninterpreted monomial IPOWk(b) with sound facts
+    (sign, unit interval, fixed points, monotone on b>=0 among the instances present)."""
+    c = cur()
+    if k < 0:
+        if bool(SBool(b.t == 0)):
+            raise ZeroDivisionError('0.0 cannot be raised to a negative power')
+        return 1.0 / _big_int_power(b, -k)
+    f = _IPOW.get(k)
+    if f is None:
+        f = z3.Function('IPOW%d' % k, z3.RealSort(), z3.RealSort())
+        _IPOW[k] = f
+    bt = _real(b.t)
+    app = f(bt)
+    apps = c.uf_apps.setdefault(('ipow', k), [])
+    if not any(a.eq(bt) for a in apps):
+        if k % 2 == 0:
+            c.lemma(app >= 0)
+        else:
+            c.lemma(z3.Implies(bt <= 0, app <= 0))
+        c.lemma(z3.Implies(z3.And(bt >= 0, bt <= 1), z3.And(app >= 0, app <= bt)))
+        c.lemma(z3.Implies(bt >= 1, app >= bt))
+        c.lemma(z3.Implies(bt == 0, app == 0))
+        c.lemma(z3.Implies(bt == 1, app == 1))
+        for a in apps:
+            fa = f(a)
+            c.lemma(z3.Implies(z3.And(a >= 0, bt >= 0),
+                               z3.And(z3.Implies(a <= bt, fa <= app), z3.Implies(bt <= a, app <= fa))))
+        apps.append(bt)
     return SNum(app)
 
 
@@ -508,3 +565,30 @@ def _unwrap(v):
     if isinstance(v, np.integer):
         return int(v)
     return v
+
+
+# real counterparts of the uninterpreted functions (translator validation / float_eval)
+def _register_uf_floats():
+    from . import core as _core
+    _core.UF_FLOAT.update({
+        'SIN': math.sin, 'COS': math.cos, 'EXP': math.exp, 'SQRT': math.sqrt,
+        'POW': lambda b, e: math.pow(b, e),
+    })
+
+    class _Lazy(dict):
+        def get(self, k, d=None):
+            if k in self:
+                return dict.get(self, k)
+            if k.startswith('IPOW'):
+                n = int(k[4:])
+                return lambda b: b ** n
+            if k.startswith('ROUND'):
+                nd = k[5:]
+                nd = -int(nd[1:]) if nd.startswith('m') else int(nd)
+                return lambda x: float(np.round(x, nd))
+            return d
+    lazy = _Lazy(_core.UF_FLOAT)
+    _core.UF_FLOAT = lazy
+
+
+_register_uf_floats()
